@@ -344,8 +344,10 @@ def run_check(pid, tier, seed, budget=None, max_runs=None, quiet=False,
         print("  detail: %s" % str(v.get("detail"))[:400])
         print("VIOLATION property=%s replay=%s" % (pid, path))
     if harness_errors:
-        for h in harness_errors[:5]:
-            print("HARNESS-ERROR: " + h.replace("\n", "\n    "))
+        for h in harness_errors[:3]:
+            print("HARNESS-ERROR: " + h[-700:].replace("\n", "\n    "))
+        if len(harness_errors) > 3:
+            print("HARNESS-ERROR: ... %d more" % (len(harness_errors) - 3))
     if reported:
         return 1
     if harness_errors or not ok_results:
